@@ -573,10 +573,81 @@ static JanetScratch *janet_mem2scratch(void *mem) {
     return s - 1;
 }
 
+#ifdef JANET_VERIF
+#include <stdlib.h>
+#include <stdio.h>
+JANET_THREAD_LOCAL JanetVerifGC janet_verif_gc;
+
+/* Called at every interpreter safepoint. Returns non-zero if a collection
+ * should be forced now. JANET_VERIF_GC = never | always | rand:<seed>:<num>/<den> */
+int janet_verif_safepoint(void) {
+    JanetVerifGC *g = &janet_verif_gc;
+    if (g->mode == 0) {
+        const char *e = getenv("JANET_VERIF_GC");
+        g->mode = 1;
+        if (e && !strcmp(e, "never")) g->mode = 2;
+        else if (e && !strcmp(e, "always")) g->mode = 3;
+        else if (e && !strncmp(e, "rand:", 5)) {
+            unsigned long long seed = 1;
+            unsigned num = 1, den = 2;
+            if (sscanf(e + 5, "%llu:%u/%u", &seed, &num, &den) >= 1 && den > 0) {
+                g->mode = 4;
+                g->rng = seed * 0x9E3779B97F4A7C15ULL + 0x1234567ULL;
+                if (!g->rng) g->rng = 1;
+                g->num = num;
+                g->den = den;
+            }
+        }
+    }
+    g->safepoints++;
+    switch (g->mode) {
+        default:
+            return 0;
+        case 2:
+            janet_vm.next_collection = 0;
+            return 0;
+        case 3:
+            g->forced++;
+            return 1;
+        case 4: {
+            uint64_t x = g->rng;
+            x ^= x << 13;
+            x ^= x >> 7;
+            x ^= x << 17;
+            g->rng = x;
+            if ((uint32_t)((x >> 16) % g->den) < g->num) {
+                g->forced++;
+                return 1;
+            }
+            return 0;
+        }
+    }
+}
+
+/* Append one line of counters to the file named by JANET_VERIF_STATS_FILE. */
+void janet_verif_report(void) {
+    const char *path = getenv("JANET_VERIF_STATS_FILE");
+    if (!path || !janet_verif_gc.safepoints) return;
+    FILE *f = fopen(path, "a");
+    if (!f) return;
+    fprintf(f, "gc safepoints=%llu forced=%llu collections=%llu freed=%llu relocations=%llu\n",
+            (unsigned long long) janet_verif_gc.safepoints,
+            (unsigned long long) janet_verif_gc.forced,
+            (unsigned long long) janet_verif_gc.collections,
+            (unsigned long long) janet_verif_gc.freed,
+            (unsigned long long) janet_verif_gc.relocations);
+    fclose(f);
+}
+#endif
+
 /* Run garbage collection */
 void janet_collect(void) {
     uint32_t i;
     if (janet_vm.gc_suspend) return;
+#ifdef JANET_VERIF
+    size_t verif_before = janet_vm.block_count;
+    janet_verif_gc.collections++;
+#endif
     depth = JANET_RECURSION_GUARD;
     janet_vm.gc_mark_phase = 1;
     /* Try to prevent many major collections back to back.
@@ -602,6 +673,10 @@ void janet_collect(void) {
     janet_sweep();
     janet_vm.next_collection = 0;
     janet_free_all_scratch();
+#ifdef JANET_VERIF
+    if (verif_before > janet_vm.block_count)
+        janet_verif_gc.freed += verif_before - janet_vm.block_count;
+#endif
 }
 
 /* Add a root value to the GC. This prevents the GC from removing a value
